@@ -106,7 +106,10 @@ static std::string file_state(const std::string &file) {
 // restart scenarios: history kind per job, restart pattern / cache / maxjobs per process
 static const char *PATTERNS[] = {"", "host(old:1)", "stat(FAILED)", "host(old:2) stat(FAILED)", "host(old:1,old:2)"};
 struct RunCfg { int P, J, cache, maxjobs; int crashProc, crashAt; bool restart = false; bool failRule = false;
-                std::vector<int> pcache, pmax, ppat, hist; };
+                std::vector<int> pcache, pmax, ppat, hist;
+                // directed interleaving (bystander scenario): process 0 runs until it is about to execute its first job (it then holds the
+                // file's records of that moment in memory), process 1 runs alone until it exits, the rest is random
+                bool directed = false; };
 
 static std::string file_state_full(const std::string &file, const std::vector<pid_t> &pids) {
   std::ostringstream o;
@@ -202,6 +205,8 @@ static std::string run_once(const RunCfg &c, Rng &r) {
   // one run in four procrastinates writers: a process that sits inside WRITE_JOBS (events 20 / 21) is advanced only when nobody else
   // can move, so that a write stays half done for as long as the protocol lets the other processes run
   bool stallWriters = r.coin(1, 4);
+  int phase = (c.directed && c.P >= 2) ? 1 : 0, phase_wait = 0;
+  if (phase) stallWriters = false;
   while (true) {
     bool any = false;
     for (auto &x : ch) any = any || x.alive;
@@ -226,8 +231,23 @@ static std::string run_once(const RunCfg &c, Rng &r) {
       if (!others.empty()) ready = others;
     }
     int pick = ready[r.below(ready.size())];
+    if (phase == 1) {
+      bool has0 = false;
+      for (int q : ready) has0 = has0 || q == 0;
+      if (!ch[0].alive) phase = 0;
+      else if (!has0) { if (++phase_wait > 400) phase = 0; else continue; }
+      else if (ch[0].pending[0] == 'X') { phase = 2; phase_wait = 0; }
+      else { pick = 0; phase_wait = 0; }
+    }
+    if (phase == 2) {
+      bool has1 = false;
+      for (int q : ready) has1 = has1 || q == 1;
+      if (!ch[1].alive) phase = 0;
+      else if (!has1) { if (++phase_wait > 400) phase = 0; else { readable(5); continue; } }
+      else { pick = 1; phase_wait = 0; }
+    }
     // sticky scheduling: long bursts of one process (a whole synchronisation, or several, while the others stand still)
-    if (last_pick >= 0 && r.unit() < stick) for (int q : ready) if (q == last_pick) pick = q;
+    if (phase == 0 && last_pick >= 0 && r.unit() < stick) for (int q : ready) if (q == last_pick) pick = q;
     last_pick = pick;
     Child &x = ch[pick];
     std::vector<std::string> t = split_ws(x.pending);
@@ -290,7 +310,7 @@ int main(int argc, char **argv) {
         k++;
         for (int j = 0; j < c.J && k < t.size(); j++, k++) c.hist.push_back(atoi(t[k].c_str()));
         if ((int)c.pcache.size() != c.P || (int)c.hist.size() != c.J) continue;
-        for (int rep = 0; rep < 40; rep++) printf("%s\n", run_once(c, r).c_str());
+        for (int rep = 0; rep < 40; rep++) { c.directed = c.P >= 2 && rep % 2 == 1; printf("%s\n", run_once(c, r).c_str()); }
         continue;
       }
       if (t.size() < 8 || t[0] != "C10") continue;
@@ -310,6 +330,16 @@ int main(int argc, char **argv) {
         { static const int pats[] = {1, 2, 2, 3, 3, 4}; c.ppat.push_back(r.coin(1, 3) ? 0 : pats[r.below(6)]); }
       }
       { static const int kinds[] = {1, 2, 3, 4, 4, 4}; for (int j = 0; j < c.J; j++) c.hist.push_back(r.coin(1, 3) ? 0 : kinds[r.below(6)]); }
+      if (r.coin(1, 3)) {
+        // bystander scenario: process 0 (any pattern) loads the history and takes work, then process 1 — whose pattern re-opens the jobs
+        // completed by an earlier host — runs from start to end while process 0 stands still
+        c.directed = true;
+        if (c.P < 2) { c.P = 2; c.pcache.push_back(1 + (int)r.below(3)); c.pmax.push_back(1000); c.ppat.push_back(0); }
+        c.ppat[1] = r.coin(1, 2) ? 1 : 4; c.pmax[1] = 1000;
+        if (r.coin(1, 2)) c.ppat[0] = 0;
+        c.hist[0] = 0;
+        if (c.J >= 2) c.hist[1 + r.below(c.J - 1)] = 1;
+      }
       printf("%s\n", run_once(c, r).c_str());
       fflush(stdout);
     }
